@@ -9,7 +9,7 @@ from sim.simfs import SimFS, SimCrash
 ID = "C01"
 LEVEL = "exploration"
 ENGINE = "E-store"
-TECHNIQUE = "deterministic simulation: seeded write/overwrite/failed-write/restart/read histories on a simulated medium (fault-free oracle configuration), reference model = the generated spec"
+TECHNIQUE = "deterministic simulation: seeded write/overwrite/failed-write/restart/read histories on a simulated medium (fault-free oracle configuration), reference model = the generated spec; plus a concurrent-callers arm under the deterministic thread scheduler"
 DESIGN_REF = "DESIGN.md section 6, C01"
 LEVEL_TEXT = ("seeded search over operation histories on a simulated medium: every acknowledged write is read back "
               "(path and stream, MAC checking on and off, after overwrite, after an unacknowledged failed write and "
